@@ -36,8 +36,13 @@ def entry_points(ctx: RuleContext, r) -> list:
     eps = list(r.instancecheck_methods())
     w = r.wrappers()
     eps += w["wraps"] + [f for f in w["impl"] if f.name != "modify_annotation"]
-    for q in ("_decorator._JaxtypingContext.__enter__", "_decorator._JaxtypingContext.__exit__",
-              "_storage.print_bindings", "_decorator._get_problem_arg"):
+    # the context-manager form: its __enter__ / __exit__ wherever they are defined (the class itself or a base
+    # class it shares with the wrappers' scope object)
+    cc = m.cls("_decorator._JaxtypingContext")
+    for nm in ("__enter__", "__exit__"):
+        meth = m.lookup_method(cc, nm)
+        eps.append(need(meth, f"_JaxtypingContext has no {nm} (own or inherited from a class of the package)"))
+    for q in ("_storage.print_bindings", "_decorator._get_problem_arg"):
         eps.append(m.func(q))
     return eps
 
